@@ -57,9 +57,19 @@ def _is_none_test(test):
 class _Events(ast.NodeVisitor):
     """events of one method body in evaluation order (branches over-approximated: everything executes)"""
 
-    def __init__(self, level, resolve, caches, synth):
-        self.level, self.resolve, self.caches, self.synth = level, resolve, caches, synth
+    def __init__(self, level, resolve, caches, synth, props=()):
+        self.level, self.resolve, self.caches, self.synth, self.props = level, resolve, caches, synth, set(props)
         self.ev = []
+
+    def visit_Try(self, node):
+        # `try: <body> except Exception: ...` : a failing read inside the body is caught, so it is not an event
+        catches_all = any(h.type is None or (isinstance(h.type, ast.Name) and h.type.id in ("Exception", "BaseException"))
+                          for h in node.handlers)
+        if not catches_all:
+            for st in node.body: self.visit(st)
+        for h in node.handlers:
+            for st in h.body: self.visit(st)
+        for st in node.orelse + node.finalbody: self.visit(st)
 
     def visit_If(self, node):
         x = _is_none_test(node.test)
@@ -90,6 +100,8 @@ class _Events(ast.NodeVisitor):
             self.visit(node.target)
 
     def visit_Attribute(self, node):
+        if _is_self_attr(node) and node.attr in self.props and isinstance(node.ctx, ast.Load):
+            self.ev.append(("call", self.resolve(node.attr, -1))); return     # `self.boundary_faces` runs the property
         if _is_self_attr(node) and node.attr in self.caches:
             if isinstance(node.ctx, ast.Store):
                 self.ev.append(("write", node.attr))       # refined to writeNone by visit_Assign2 below
@@ -113,16 +125,22 @@ class _Events(ast.NodeVisitor):
         self.generic_visit(node)
 
 
-def _events_of(fn, level, resolve, caches, synth):
-    v = _Events(level, resolve, caches, synth)
+def _events_of(fn, level, resolve, caches, synth, props=()):
+    v = _Events(level, resolve, caches, synth, props)
     for st in fn.body:
         v.visit(st)
     return v.ev
 
 
-def extract_guards():
+MESH_HIER = [("mouette/mesh/datatypes/volume.py", "VolumeMesh", "Mesh")]
+
+
+def extract_guards(hier=None, all_attrs=False, has_clear=True):
+    """hier: class hierarchy, concrete class first. all_attrs: every `self.x` stored by the classes is a tracked attribute
+    (VolumeMesh level: `connectivity`, `boundary_connectivity`), otherwise only the `_x` ones."""
+    hier = hier or HIER
     classes = []
-    for rel, qual, base in HIER:
+    for rel, qual, base in hier:
         tree, _ = T.load(rel)
         cls = T.find_def(tree, qual)
         if not isinstance(cls, ast.ClassDef): raise TranslateError(f"{qual} is not a class")
@@ -134,7 +152,7 @@ def extract_guards():
     for _, meths in classes:
         for fn in meths.values():
             for n in ast.walk(fn):
-                if _is_self_attr(n) and isinstance(n.ctx, ast.Store) and n.attr.startswith("_") and n.attr not in caches:
+                if _is_self_attr(n) and isinstance(n.ctx, ast.Store) and (all_attrs or n.attr.startswith("_")) and n.attr not in caches:
                     caches.append(n.attr)
     caches.sort()
     ids, names = {}, []
@@ -159,9 +177,13 @@ def extract_guards():
             bodies[synth_ids[x]] = [("write", x)]
         return synth_ids[x]
 
+    props = set()
+    for _, meths in classes:
+        for name, fn in meths.items():
+            if any(isinstance(d, ast.Name) and d.id == "property" for d in fn.decorator_list): props.add(name)
     for lvl, (qual, meths) in enumerate(classes):
         for name, fn in meths.items():
-            bodies[ids[(lvl, name)]] = _events_of(fn, lvl, resolve, set(caches), synth)
+            bodies[ids[(lvl, name)]] = _events_of(fn, lvl, resolve, set(caches), synth, props)
     public = []
     for _, meths in classes:
         for n in meths:
@@ -173,7 +195,8 @@ def extract_guards():
     init_attrs = _attrs_initialised(bodies, resolve("__init__", -1), caches)
     return {"caches": caches, "names": names, "bodies": [bodies[i] for i in range(len(names))],
             "init": resolve("__init__", -1), "alphabet": alphabet, "init_attrs": init_attrs,
-            "clear_attrs": _attrs_initialised(bodies, resolve("clear", -1), caches)}
+            "clear": resolve("clear", -1) if has_clear else None,
+            "clear_attrs": _attrs_initialised(bodies, resolve("clear", -1), caches) if has_clear else []}
 
 
 def _attrs_initialised(bodies, mid, caches, depth=0):
@@ -187,7 +210,7 @@ def _attrs_initialised(bodies, mid, caches, depth=0):
     return out
 
 
-def guards_to_lean(g):
+def guards_to_lean(g, name="volumeGuards", prefix=""):
     ci = {c: i for i, c in enumerate(g["caches"])}
 
     def ev(e):
@@ -199,7 +222,7 @@ def guards_to_lean(g):
         rows.append(f"    /- {i} {g['names'][i]} -/ [" + ", ".join(ev(e) for e in b) + "]")
     q = lambda s: '"' + s + '"'
     return (
-        "def volumeGuards : Mouette.VolLazy.Table where\n"
+        f"def {name} : Mouette.VolLazy.Table where\n"
         f"  attrNames := [{', '.join(q(c) for c in g['caches'])}]\n"
         f"  methodNames := [{', '.join(q(n) for n in g['names'])}]\n"
         "  methods := [\n" + ",\n".join(rows) + "]\n"
@@ -207,8 +230,9 @@ def guards_to_lean(g):
         f"  alphabet := [{', '.join(str(a) for a in g['alphabet'])}]\n"
         f"  fuel := {len(g['names']) + 2}\n\n"
         f"/-- attributes created by `__init__` (incl. the `super().__init__` chain) / by `clear` -/\n"
-        f"def initAttrs : List Nat := [{', '.join(str(ci[a]) for a in g['init_attrs'])}]\n"
-        f"def clearAttrs : List Nat := [{', '.join(str(ci[a]) for a in g['clear_attrs'])}]\n")
+        f"def {prefix}initAttrs : List Nat := [{', '.join(str(ci[a]) for a in g['init_attrs'])}]\n"
+        f"def {prefix}clearAttrs : List Nat := [{', '.join(str(ci[a]) for a in g['clear_attrs'])}]\n"
+        + (f"def {prefix}clearId : Nat := {g['clear']}\n" if g.get("clear") is not None else ""))
 
 
 # ------------------------------------------------------------------------------------------------
@@ -260,6 +284,17 @@ def extract_subface():
 
 
 def _slice_expr(node, cvar, ivar):
+    # `[C[j] for j in range(K) if j != i]` : the same sub-list written as a comprehension
+    if isinstance(node, ast.ListComp) and len(node.generators) == 1:
+        g = node.generators[0]
+        if (isinstance(node.elt, ast.Subscript) and isinstance(node.elt.value, ast.Name) and node.elt.value.id == cvar
+                and isinstance(g.target, ast.Name) and isinstance(node.elt.slice, ast.Name) and node.elt.slice.id == g.target.id
+                and isinstance(g.iter, ast.Call) and getattr(g.iter.func, "id", None) == "range" and len(g.iter.args) == 1
+                and isinstance(g.iter.args[0], ast.Constant) and len(g.ifs) == 1 and isinstance(g.ifs[0], ast.Compare)
+                and isinstance(g.ifs[0].ops[0], ast.NotEq)
+                and {getattr(g.ifs[0].left, "id", None), getattr(g.ifs[0].comparators[0], "id", None)} == {g.target.id, ivar}):
+            j = g.target.id
+            return (f"(((List.range {g.iter.args[0].value}).filter (fun {j} => {j} != {ivar})).map (fun {j} => {cvar}.getD {j} 0))")
     if isinstance(node, ast.BinOp) and isinstance(node.op, ast.Add):
         return f"({_slice_expr(node.left, cvar, ivar)} ++ {_slice_expr(node.right, cvar, ivar)})"
     if isinstance(node, ast.Subscript) and isinstance(node.value, ast.Name) and node.value.id == cvar \
@@ -315,6 +350,63 @@ def _first_triple(stmts):
     raise TranslateError("no (A,B,C)-triple in orientation branch")
 
 
+def extract_walk_loops():
+    """`_sort_edge_neighborhoods`: per edge, two `while True` walks. For each walk: does its preamble restart from the first
+    cell (`iC = self._adjE2C[e][0]`) with `kc = 0`, `kf = 0`; the steps of `kf` / `kc` inside the loop; the stop test
+    `nextC is None or nextC in keys_cell`. Any other shape (merged loops, for-loops ...) is refused."""
+    tree, _ = T.load("mouette/mesh/datatypes/volume.py")
+    fn = T.find_def(tree, "VolumeMesh._Connectivity._sort_edge_neighborhoods")
+    loop = next((n for n in fn.body if isinstance(n, ast.For)), None)
+    if loop is None: raise TranslateError("no `for e,(A,B) in enumerate(self.mesh.edges)` loop")
+    walks, pre = [], []
+    for st in loop.body:
+        if isinstance(st, ast.While):
+            if not (isinstance(st.test, ast.Constant) and st.test.value is True): raise TranslateError("walk is not `while True`")
+            zero, restart = set(), False
+            for a in pre:
+                if isinstance(a, ast.Assign) and len(a.targets) == 1 and isinstance(a.targets[0], ast.Name):
+                    t = a.targets[0].id
+                    if isinstance(a.value, ast.Constant) and a.value.value == 0: zero.add(t)
+                    v = a.value
+                    if t == "iC" and isinstance(v, ast.Subscript) and isinstance(v.value, ast.Subscript) \
+                            and _is_self_attr(v.value.value) and v.value.value.attr == "_adjE2C" \
+                            and isinstance(v.slice, ast.Constant) and v.slice.value == 0:
+                        restart = True
+            steps = {}
+            stop = False
+            for n in ast.walk(st):
+                if isinstance(n, ast.AugAssign) and isinstance(n.target, ast.Name) and n.target.id in ("kf", "kc") \
+                        and isinstance(n.value, ast.Constant) and n.value.value == 1:
+                    steps[n.target.id] = 1 if isinstance(n.op, ast.Add) else -1 if isinstance(n.op, ast.Sub) else None
+                if isinstance(n, ast.If) and isinstance(n.test, ast.BoolOp) and isinstance(n.test.op, ast.Or) \
+                        and any(isinstance(b, ast.Break) for b in n.body):
+                    d = ast.dump(n.test)
+                    if "Is()" in d and "In()" in d and "keys_cell" in d and "nextC" in d: stop = True
+            if set(steps) != {"kf", "kc"} or None in steps.values() or not stop:
+                raise TranslateError("walk body: kf/kc steps or the stop test not recognised")
+            walks.append([1 if (restart and {"kc", "kf"} <= zero) else 0, steps["kf"], steps["kc"]])
+            pre = []
+        else:
+            pre.append(st)
+    if len(walks) != 2: raise TranslateError(f"{len(walks)} walks found, 2 expected")
+    return walks
+
+
+def extract_edge_map_domain():
+    """`_BoundaryConnectivity.__init__`: `for e in self.complete_mesh.<X>: ... self.m2b_edge[e] = be; self.b2m_edge[be] = e`"""
+    tree, _ = T.load("mouette/mesh/datatypes/volume.py")
+    fn = T.find_def(tree, "VolumeMesh._BoundaryConnectivity.__init__")
+    for n in fn.body:
+        if isinstance(n, ast.For) and isinstance(n.target, ast.Name) and isinstance(n.iter, ast.Attribute) \
+                and isinstance(n.iter.value, ast.Attribute) and _is_self_attr(n.iter.value) and n.iter.value.attr == "complete_mesh":
+            stores = [t.value.attr for st in n.body if isinstance(st, ast.Assign) for t in st.targets
+                      if isinstance(t, ast.Subscript) and _is_self_attr(t.value)]
+            if sorted(stores) != ["b2m_edge", "m2b_edge"]: raise TranslateError(f"edge map loop stores {stores}")
+            if any(isinstance(st, (ast.If, ast.Continue)) for st in n.body): raise TranslateError("edge map loop filters its domain")
+            return n.iter.attr
+    raise TranslateError("`for e in self.complete_mesh.<X>` building m2b_edge / b2m_edge not found")
+
+
 def extract_completed_tables():
     tree, _ = T.load("mouette/mesh/mesh_data.py")
     out = {}
@@ -337,6 +429,12 @@ def run():
     def guards():
         g = extract_guards(); parts["guards"] = guards_to_lean(g)
         return {"caches": len(g["caches"]), "methods": len(g["names"]), "alphabet": [g["names"][i] for i in g["alphabet"]],
+                "not_initialised": [c for c in g["caches"] if c not in g["init_attrs"]]}
+
+    def mesh_guards():
+        g = extract_guards(MESH_HIER, all_attrs=True, has_clear=False)
+        parts["meshGuards"] = guards_to_lean(g, "meshGuards", "mesh")
+        return {"attrs": g["caches"], "methods": len(g["names"]), "alphabet": [g["names"][i] for i in g["alphabet"]],
                 "not_initialised": [c for c in g["caches"] if c not in g["init_attrs"]]}
 
     def adj():
@@ -365,6 +463,19 @@ def run():
         return t
 
     sites.append(T.site("volume.py+surface.py+linear.py:_Connectivity guard table", guards))
+    sites.append(T.site("volume.py:VolumeMesh border/boundary caches guard table", mesh_guards))
+    def walks():
+        w = extract_walk_loops()
+        parts["walks"] = f"def walkLoops : List (List Int) := {T.lean_nat_table(w)}\n"
+        return w
+
+    def edgemap():
+        x = extract_edge_map_domain()
+        parts["edgemap"] = f'def edgeMapDomain : String := "{x}"\n'
+        return x
+
+    sites.append(T.site("volume.py:_sort_edge_neighborhoods walk loops (restart, key steps, stop test)", walks))
+    sites.append(T.site("volume.py:_BoundaryConnectivity.__init__ edge map domain", edgemap))
     sites.append(T.site("volume.py:_compute_adjacent_cell face table", adj))
     sites.append(T.site("volume.py:_compute_cell_adj sub-face slice", sub))
     sites.append(T.site("volume.py:_extract_surface_boundary orientation test",
@@ -375,15 +486,19 @@ def run():
     # fall-backs keep the file compiling so that only the theorems about the missing fragment break
     dflt = {
         "guards": ("def volumeGuards : Mouette.VolLazy.Table := ⟨[], [], [], 0, [], 0⟩\n"
-                   "def initAttrs : List Nat := []\ndef clearAttrs : List Nat := []\n"),
+                   "def initAttrs : List Nat := []\ndef clearAttrs : List Nat := []\ndef clearId : Nat := 0\n"),
+        "meshGuards": ("def meshGuards : Mouette.VolLazy.Table := ⟨[], [], [], 0, [], 0⟩\n"
+                       "def meshinitAttrs : List Nat := []\ndef meshclearAttrs : List Nat := []\n"),
         "adj": "def adjTable : List (List Nat) := []\n",
+        "walks": "def walkLoops : List (List Int) := []\n",
+        "edgemap": 'def edgeMapDomain : String := ""\n',
         "sub": "def cellAdjLen : Nat := 0\ndef cellAdjRange : Nat := 0\ndef subFace (C : List Nat) (i : Nat) : List Nat := []\n",
         "bcOrient": "def bcOrientArgs : List (List Nat) := []\ndef bcOrientKeep : List Nat := []\ndef bcOrientFlip : List Nat := []\n",
         "sbOrient": "def sbOrientArgs : List (List Nat) := []\ndef sbOrientKeep : List Nat := []\ndef sbOrientFlip : List Nat := []\n",
         "completed": "def completedTable : List (List Nat) := []\ndef cellFacesTable : List (List Nat) := []\n",
     }
     body = "namespace Mouette.Generated.C03\nopen Mouette.VolLazy.Ev\n\n"
-    for k in ("guards", "adj", "sub", "bcOrient", "sbOrient", "completed"):
+    for k in ("guards", "meshGuards", "walks", "edgemap", "adj", "sub", "bcOrient", "sbOrient", "completed"):
         body += parts.get(k, "-- SITE NOT RECOGNISED\n" + dflt[k]) + "\n"
     body += "end Mouette.Generated.C03\n"
     T.write_generated("C03", body, header="import Mouette.Model.VolLazy\n")
